@@ -50,6 +50,7 @@ def step (st : State) (line : String) : State × String :=
   | "CONVTT" :: args => (st, handleConvTT st args)
   | "CONVTK" :: args => (st, handleConvTK st args)
   | "BYTETAB" :: args => (st, handleByteTab args)
+  | "LOADTT" :: args => (st, handleLoadTT args)
   | "BYTEPIECE" :: args => (st, handleBytePiece args)
   | "BPE" :: args => (st, handlePiece st args impl)
   | "UNI" :: args => (st, handlePiece st args impl)
